@@ -40,10 +40,10 @@ theorem dStars_le : ∀ d : D, starsNtoks (dStars d) ≤ d.ntoks
 theorem IDc.fuel_linear {it : IDc} (hwf : WFI it) : it.fuel ≤ 14 * it.ntoks + 1 := by
   have h1 := D.fuel_linear hwf.wfd
   cases hi : it.init with
-  | none => simp only [IDc.fuel, IDc.ntoks, hi, DeclSkel.ofuel]; omega
+  | none => simp only [IDc.fuel, IDc.ntoks, hi, DeclParse.ifuel]; omega
   | some e =>
-    have := FullExpr.fuel_linear e
-    simp only [IDc.fuel, IDc.ntoks, hi, DeclSkel.ofuel]; omega
+    have := Init.I.fuel_linear e
+    simp only [IDc.fuel, IDc.ntoks, hi, DeclParse.ifuel]; omega
 
 theorem restFuel_linear : ∀ (l : List IDc), (∀ it ∈ l, WFI it) → restFuel l ≤ 14 * restNtoks l + 1
   | [], _ => by simp [restFuel, restNtoks]
